@@ -1110,6 +1110,13 @@ def mismatch_step(ops):
 
 def run(ck):
     ok, info = ck.lean_obligations("DS.Props.C08")
+    # whole-column attribute assignment: own model (DS.Column), theorems (DS.Props.C08Column) and stream
+    ok_col, info_col = ck.lean_obligations("DS.Props.C08Column")
+    if not ok_col:
+        ok, info = False, info_col
+    from . import c08_column
+
+    c08_column.run(ck)
     quick = ck.tier == "quick"
     nhist = 500 if quick else 4000
     maxlen = 12 if quick else 40
@@ -1224,7 +1231,7 @@ def run(ck):
         "CPython object identity / list semantics as modelled in DS/Model/World.lean (validated differentially each run)"]
     ck.assumptions += [
         "atom attributes other than the payload (xyz, U, element, label text) are not modelled; labels are derived from payloads",
-        "whole-column attribute assignment (stru.xyz = ..., occupancy, U...) is outside the modelled operation set",
+        "whole-column attribute assignment (stru.xyz = ..., occupancy, U...) is modelled separately (DS.Column / DS.Props.C08Column): NumPy broadcasting of the value; it does not interact with the object-graph model because it changes no identity, order or lattice reference (checked on every assignment)",
         "file I/O (read/readStr/write) and placeInLattice are covered by C16/C14, not here",
         "copy(), copy.copy, Structure(s), PDFFitStructure(s) are one model operation; Structure/PDFFitStructure differ only in pdffit metadata",
         "numpy index arrays are modelled as lists of Python integers; float / multi-dimensional index arrays are not generated",
@@ -1244,6 +1251,10 @@ def run(ck):
 def replay(path):
     common.use_repo()
     r = json.load(open(path))
+    if r.get("kind") == "column":
+        from . import c08_column
+
+        return c08_column.replay(r)
     if "history" not in r:
         print("replay names a proof obligation / stream, no history to execute:", r.get("theorem") or r.get("stream"))
         return 1
